@@ -3,7 +3,7 @@
 //! `cargo check` on this crate failing with E0277 is reported as a C17 violation.
 #![allow(dead_code)]
 
-use ndarray::{ArcArray, Array, ArrayView, Ix1, Ix2, Ix3, IxDyn, OwnedRepr, OwnedArcRepr, ViewRepr};
+use ndarray::{ArcArray, Array, ArrayView, Ix1, Ix2, Ix3, Ix4, Ix5, Ix6, IxDyn, OwnedArcRepr, OwnedRepr, ViewRepr};
 use ndarray_interp::interp1d::cubic_spline::CubicSplineStrategy;
 use ndarray_interp::interp1d::{Interp1D, Linear};
 use ndarray_interp::interp2d::{Bilinear, Interp2D};
@@ -14,16 +14,28 @@ type Own<T> = OwnedRepr<T>;
 type View<'a, T> = ViewRepr<&'a T>;
 type Arc<T> = OwnedArcRepr<T>;
 
+macro_rules! lin1 {
+    ($T:ty, $D:ty, $Sd:ty, $Sx:ty) => {
+        need::<Interp1D<$Sd, $Sx, $D, Linear>>();
+    };
+}
+macro_rules! spl1 {
+    ($T:ty, $D:ty, $Sd:ty, $Sx:ty) => {
+        need::<Interp1D<$Sd, $Sx, $D, CubicSplineStrategy<$Sd, $D>>>();
+    };
+}
+
+/// every storage combination of (data, axis) for one element type and data dimension type
 macro_rules! one_d {
-    ($T:ty, $D:ty) => {
-        need::<Interp1D<Own<$T>, Own<$T>, $D, Linear>>();
-        need::<Interp1D<View<'static, $T>, View<'static, $T>, $D, Linear>>();
-        need::<Interp1D<View<'static, $T>, Own<$T>, $D, Linear>>();
-        need::<Interp1D<Arc<$T>, Arc<$T>, $D, Linear>>();
-        need::<Interp1D<Own<$T>, Own<$T>, $D, CubicSplineStrategy<Own<$T>, $D>>>();
-        need::<Interp1D<View<'static, $T>, View<'static, $T>, $D, CubicSplineStrategy<View<'static, $T>, $D>>>();
-        need::<Interp1D<View<'static, $T>, Own<$T>, $D, CubicSplineStrategy<View<'static, $T>, $D>>>();
-        need::<Interp1D<Arc<$T>, Arc<$T>, $D, CubicSplineStrategy<Arc<$T>, $D>>>();
+    ($m:ident, $T:ty, $D:ty) => {
+        $m!($T, $D, Own<$T>, Own<$T>);
+        $m!($T, $D, View<'static, $T>, View<'static, $T>);
+        $m!($T, $D, View<'static, $T>, Own<$T>);
+        $m!($T, $D, Arc<$T>, Arc<$T>);
+        $m!($T, $D, Arc<$T>, Own<$T>);
+        $m!($T, $D, Own<$T>, View<'static, $T>);
+        $m!($T, $D, Own<$T>, Arc<$T>);
+        $m!($T, $D, View<'static, $T>, Arc<$T>);
     };
 }
 
@@ -33,25 +45,61 @@ macro_rules! two_d {
         need::<Interp2D<View<'static, $T>, View<'static, $T>, View<'static, $T>, $D, Bilinear>>();
         need::<Interp2D<View<'static, $T>, Own<$T>, Own<$T>, $D, Bilinear>>();
         need::<Interp2D<Arc<$T>, Arc<$T>, Arc<$T>, $D, Bilinear>>();
+        need::<Interp2D<Arc<$T>, Own<$T>, View<'static, $T>, $D, Bilinear>>();
+        need::<Interp2D<Own<$T>, Arc<$T>, Own<$T>, $D, Bilinear>>();
+        need::<Interp2D<View<'static, $T>, View<'static, $T>, Own<$T>, $D, Bilinear>>();
+        need::<Interp2D<Own<$T>, Own<$T>, Arc<$T>, $D, Bilinear>>();
     };
 }
 
+macro_rules! all_dims_1d {
+    ($m:ident, $T:ty) => {
+        one_d!($m, $T, Ix1);
+        one_d!($m, $T, Ix2);
+        one_d!($m, $T, Ix3);
+        one_d!($m, $T, Ix4);
+        one_d!($m, $T, Ix5);
+        one_d!($m, $T, Ix6);
+        one_d!($m, $T, IxDyn);
+    };
+}
+macro_rules! all_dims_2d {
+    ($T:ty) => {
+        two_d!($T, Ix2);
+        two_d!($T, Ix3);
+        two_d!($T, Ix4);
+        two_d!($T, Ix5);
+        two_d!($T, Ix6);
+        two_d!($T, IxDyn);
+    };
+}
+
+/// Send and Sync are required separately as well (a type can lose one and keep the other)
+fn need_send<T: Send>() {}
+fn need_sync<T: Sync>() {}
+
 pub fn all() {
-    one_d!(f64, Ix1);
-    one_d!(f64, Ix2);
-    one_d!(f64, Ix3);
-    one_d!(f64, IxDyn);
-    one_d!(f32, Ix1);
-    one_d!(f32, Ix2);
-    one_d!(f32, Ix3);
-    one_d!(f32, IxDyn);
-    two_d!(f64, Ix2);
-    two_d!(f64, Ix3);
-    two_d!(f64, IxDyn);
-    two_d!(f32, Ix2);
-    two_d!(f32, Ix3);
-    two_d!(f32, IxDyn);
-    // the array types themselves (sanity: if these fail the probe is wrong, not the crate)
+    all_dims_1d!(lin1, f64);
+    all_dims_1d!(lin1, f32);
+    all_dims_1d!(lin1, i32);
+    all_dims_1d!(lin1, i64);
+    all_dims_1d!(lin1, u8);
+    all_dims_1d!(spl1, f64);
+    all_dims_1d!(spl1, f32);
+    all_dims_2d!(f64);
+    all_dims_2d!(f32);
+    all_dims_2d!(i32);
+    all_dims_2d!(i64);
+    need_send::<Interp1D<Own<f64>, Own<f64>, Ix1, Linear>>();
+    need_sync::<Interp1D<Own<f64>, Own<f64>, Ix1, Linear>>();
+    need_send::<Interp1D<Arc<f64>, Arc<f64>, IxDyn, CubicSplineStrategy<Arc<f64>, IxDyn>>>();
+    need_sync::<Interp1D<Arc<f64>, Arc<f64>, IxDyn, CubicSplineStrategy<Arc<f64>, IxDyn>>>();
+    need_send::<Interp2D<Arc<f64>, Arc<f64>, Arc<f64>, IxDyn, Bilinear>>();
+    need_sync::<Interp2D<Arc<f64>, Arc<f64>, Arc<f64>, IxDyn, Bilinear>>();
+    // the strategies and the arrays themselves (sanity: if the arrays fail the probe is wrong, not the crate)
+    need::<Linear>();
+    need::<Bilinear>();
+    need::<CubicSplineStrategy<Own<f64>, Ix3>>();
     need::<Array<f64, Ix1>>();
     need::<ArrayView<'static, f64, Ix2>>();
     need::<ArcArray<f64, IxDyn>>();
